@@ -79,6 +79,10 @@ def sprinkle(cases, seed, p_bw=0.12, p_log=0.08, p_prior=0.08, p_version=0.12):
             # subscriber classes whose callbacks are inherited / come from a mixin
             if isinstance(t, dict) and 'subs' not in t and r.random() < 0.06:
                 t['subs'] = [{'flavor': r.choice(['inherited', 'mixin'])}]
+            # the file is named relative to the working directory ('name' / './name') instead of by an absolute path
+            if isinstance(t, dict) and ((t.get('kind') == 'upload' and t.get('src') == 'path') or (t.get('kind') == 'download' and t.get('dst') == 'path')) \
+                    and 'relative' not in t and not t.get('dst_is_dir') and not c.get('real') and r.random() < 0.12:
+                t['relative'] = r.choice([True, 'dot'])
             # a destination stream that declares itself non-seekable although seek() / tell() exist
             if isinstance(t, dict) and t.get('kind') == 'download' and t.get('dst') == 'nonseekable' and 'flavor' not in t and r.random() < 0.3:
                 t['flavor'] = 'declared'
